@@ -665,4 +665,70 @@ theorem protected_of_table {m : Mutex} {X : Var → Bool} {K : Site → Bool} {r
   · exact Or.inl (List.contains_iff_mem.1 h2)
   · exact Or.inr h2
 
+/-! ## monotonicity in the exception lists, callouts -/
+
+theorem pairsOKB_mono {k1 k2 : Site → Site → Bool} (h : ∀ a b, k1 a b = true → k2 a b = true)
+    {A B : List (Action × List Mutex)} (ok : pairsOKB k1 A B = true) : pairsOKB k2 A B = true := by
+  unfold pairsOKB at ok ⊢
+  refine List.all_eq_true.2 fun p hp => List.all_eq_true.2 fun q hq => ?_
+  have h2 := List.all_eq_true.1 (List.all_eq_true.1 ok p hp) q hq
+  unfold pairOKB at h2 ⊢
+  simp only [Bool.or_eq_true] at h2 ⊢
+  rcases h2 with h2 | h2
+  · exact Or.inl h2
+  · exact Or.inr (h _ _ h2)
+
+/-- a table that needs no exception satisfies the discipline modulo any exception list -/
+theorem tableDRF_mono {k1 k2 : Site → Site → Bool} (h : ∀ a b, k1 a b = true → k2 a b = true)
+    {roles : List Role} (ok : tableDRF k1 roles = true) : tableDRF k2 roles = true := by
+  unfold tableDRF at ok ⊢
+  refine List.all_eq_true.2 fun a ha => List.all_eq_true.2 fun b hb => ?_
+  have h2 := List.all_eq_true.1 (List.all_eq_true.1 ok a ha) b hb
+  cases hA : roles[a]? with
+  | none => simp
+  | some A =>
+    cases hB : roles[b]? with
+    | none => simp
+    | some B =>
+      simp only [hA, hB, Bool.or_eq_true] at h2 ⊢
+      rcases h2 with h2 | h2
+      · exact Or.inl h2
+      · exact Or.inr (pairsOKB_mono h h2)
+
+theorem protectedB_mono {m : Mutex} {X : Var → Bool} {K1 K2 : Site → Bool} (h : ∀ s, K1 s = true → K2 s = true)
+    {A : List (Action × List Mutex)} (ok : protectedB m X K1 A = true) : protectedB m X K2 A = true := by
+  unfold protectedB at ok ⊢
+  refine List.all_eq_true.2 fun p hp => ?_
+  have h2 := List.all_eq_true.1 ok p hp
+  cases hact : p.1 with
+  | acc x w s =>
+    simp only [hact, Bool.or_eq_true] at h2 ⊢
+    rcases h2 with h2 | h2
+    · exact Or.inl h2
+    · exact Or.inr (h _ h2)
+  | _ => simp
+
+/-- if the table lists no callout under a handler-needed mutex, a callout of the table is
+delivered holding none of them -/
+theorem callout_ok_of_badCallouts_nil {hl : List Mutex} {A : List (Action × List Mutex)}
+    (h0 : badCallouts hl A = []) {s : Site} {re : Bool} {h : List Mutex}
+    (hm : (Action.callout s re, h) ∈ A) : ∀ m ∈ h, m ∉ hl := by
+  intro m hmh hml
+  unfold badCallouts at h0
+  have := List.filterMap_eq_nil_iff.1 h0 _ hm
+  simp at this
+  exact this m hmh hml
+
+/-- in a system of role threads, a thread about to deliver a callback holds no mutex of `hl`,
+provided the table lists no callout under such a mutex -/
+theorem callout_unlocked_of_table {hl : List Mutex} {roles : List Role}
+    (ok : ∀ R ∈ roles, R.annOK = true) (tb : ∀ R ∈ roles, badCallouts hl R.accs = [])
+    {sys : List (Nat × List Action)} (wr : WellRoled roles sys) {s : State}
+    (rs : Reachable (progsOf sys) s) {i : Nat} {h : List Mutex} {site : Site} {re : Bool} {r : List Action}
+    (hi : s[i]? = some ⟨h, .callout site re :: r⟩) : ∀ m ∈ h, m ∉ hl := by
+  obtain ⟨p, hp, hs⟩ := next_in_scan (inv_reachable rs) hi
+  obtain ⟨ri, hsi⟩ := progsOf_get hp
+  obtain ⟨R, hR, _, ha, _⟩ := wellRoled_thread ok wr hsi
+  exact callout_ok_of_badCallouts_nil (tb R (List.mem_of_getElem? hR)) (ha _ hs)
+
 end Zvbi.Locks
